@@ -9,8 +9,9 @@ from harness import common, tlc
 
 
 def registry():
-    from harness.props import reqwait, errorclass, session, dispatch, handshake, versioning, framing
+    from harness.props import reqwait, errorclass, session, dispatch, handshake, versioning, framing, framing_out
     return {
+        "C06": framing_out.check_c06,
         "C05": framing.check_c05,
         "C13": versioning.check_c13,
         "C03": handshake.check_c03,
